@@ -28,7 +28,7 @@ CLAIMED = {
    note="Trusted base: the independent decoder sim/specdec (cross-checked on 543 bundled reference-library files: the 451 that are not deliberately corrupt or multi-file members decode without findings), the reference model, Go toolchain. Sampling, not proof.",
    ref="DESIGN.md section 4 C05"),
  "C10": dict(level="exploration", engine="E1-history-simulator",
-   text="Seeded base files followed by 1-5 OpenForWrite sessions (restart: only file bytes survive, all writer memory lost) of 0-10 operations; after each session the logical dump must equal the model with exactly that session's successful operations; empty sessions must leave the file byte-identical (SHA-256).",
+   text="Seeded base files followed by 1-5 OpenForWrite sessions (restart: only file bytes survive, all writer memory lost) of 0-10 operations; after each session the logical dump must equal the model with exactly that session's successful operations; empty sessions must leave the file byte-identical (SHA-256). Every eighth run does the same on a copy of a bundled reference-library file (structures the library's own writer never produces): sessions add a scalar attribute to some dataset or do nothing, and everything the read API shows for every object must be as before, plus exactly the added attributes.",
    technique="deterministic simulation: multi-session open-modify-close histories vs model",
    ref="DESIGN.md section 4 C10"),
  "C12": dict(level="exploration", engine="E1-history-simulator",
